@@ -40,6 +40,8 @@ fn align_no_fill<VM: VMBinding>(s: &mut Src) {
     // "for every input that does not overflow": the result must be representable, and the
     // offset must be negatable as the signed value the code converts it to.
     s.assume(region <= usize::MAX - VM::MAX_ALIGNMENT);
+    // `Address + isize` is signed arithmetic: region + gap must not cross 2^63 either.
+    s.assume(region < (1usize << 63) - VM::MAX_ALIGNMENT || region >= (1usize << 63));
     s.assume(offset <= isize::MAX as usize);
     let use_inner = s.any_bool();
     if !use_inner {
